@@ -17,9 +17,9 @@ from vlib import mmgen, mmmut, runner, sut
 PID = "C03"
 RULE = (
     "Hypothesis: a generated meta-model (vlib.mmgen) run through one drawn target of the 8 via main.execute with "
-    "StringIO stdout/stderr, in five kinds: accepted model + minimal snippets; accepted model + deficient snippet "
+    "StringIO stdout/stderr, in six kinds: accepted model + minimal snippets; accepted model + deficient snippet "
     "directory (a required snippet missing/empty/garbage/non-UTF-8, an unknown extra file); model with 1-2 near-miss "
-    "mutations (vlib.mmmut, ~50 % rejected); path faults (--model_path missing or a directory, --snippets_dir missing "
+    "mutations (vlib.mmmut, ~50 % rejected); accepted model + one understood (non implementation-specific) method; path faults (--model_path missing or a directory, --snippets_dir missing "
     "or a file, --output_dir a file / missing and to be created / below a file); 'joint' = one entity-targeted error "
     "operator of vlib.c03_gen (14 operators, each detected by one collecting loop: dangling property type, invariant "
     "without description, duplicate invariant, non-None default, uninitialised property, constructor argument "
@@ -62,7 +62,7 @@ JOINT_OPS = [op for op in g.OPS]
 @st.composite
 def cases(draw: Any) -> Dict[str, Any]:
     kind = draw(st.sampled_from(["accepted", "deficient", "mutated", "mutated", "mutated", "paths", "joint", "joint",
-                                 "joint"]))
+                                 "joint", "method"]))
     target = draw(st.sampled_from(sut.TARGETS))
     opts = mmgen.Opts(max_classes=draw(st.integers(2, 5)), max_props=draw(st.integers(1, 3)),
                       invariants=draw(st.sampled_from(["general", "general", "schema"])))
@@ -83,6 +83,18 @@ def cases(draw: Any) -> Dict[str, Any]:
         if draw(st.booleans()):
             # a rejected model behind the path fault: the fault must win or the report must still conform
             _, case["text"] = mmmut.mutate(draw, text, None)
+    elif kind == "method":
+        # an understood (non implementation-specific) method: accepted by the front end, refused by the SDK targets
+        try:
+            src = g.Src(text)
+            cands = [c for c in src.classes() if not g.Src.is_enum(c) and not g.Src.is_cp(c)]
+            c = cands[draw(st.integers(0, len(cands) - 1))]
+            lines = text.split("\n")
+            body = draw(st.sampled_from(["pass", "return None", '"""Do something."""']))
+            lines[c.end_lineno:c.end_lineno] = ["", "    def zq_method(self) -> None:", f"        {body}"]
+            case["text"] = "\n".join(lines)
+        except (SyntaxError, ValueError, IndexError):
+            case["kind"] = "accepted"
     elif kind == "joint":
         try:
             src = g.Src(text)
@@ -373,7 +385,7 @@ def shard(ctx: runner.Ctx) -> None:
 def replay(case: Any) -> List[Tuple[str, str]]:
     if not isinstance(case, dict) or not isinstance(case.get("text"), str):
         return []
-    if case.get("kind") not in ("accepted", "deficient", "mutated", "paths", "joint") or case.get("target") not in sut.TARGETS:
+    if case.get("kind") not in ("accepted", "deficient", "mutated", "paths", "joint", "method") or case.get("target") not in sut.TARGETS:
         return []
     c = dict(case)
     d = c.get("deficient")
@@ -406,7 +418,7 @@ def health(m: Any, tier: str) -> Any:
     for k in ("outcome:ok", "outcome:parse", "outcome:translate", "outcome:path"):
         if cl.get(k, 0) < 0.02 * ev:
             return f"class {k} holds only {cl.get(k, 0)} of {ev}"
-    if m["notes"].get("subprocess_cases", 0) < 0.02 * ev:
+    if m["notes"].get("subprocess_cases", 0) < 0.008 * ev:
         return f"only {m['notes'].get('subprocess_cases', 0)} subprocess cases"
     return None
 
